@@ -1,5 +1,5 @@
 (* C04 — Sessions end: hard lifetime bound, periodic revalidation, effective revocation. *)
-From V Require Import Base Validators ProxyCore ProxyCore_proofs ProxyWorld ProxyWorld_proofs.
+From V Require Import Base Validators ProxyCore ProxyCore_proofs ProxyWorld ProxyWorld_proofs ProxyExamples.
 Open Scope Z_scope.
 
 (* For every history (ticks, logins, requests presenting ANY issued cookie, any answers): every
